@@ -53,6 +53,8 @@ PROPS = {
     'C15': dict(suites=[('list', [])], column='kv', relevant=lambda r: r['name'] in LIST_CMDS, title='List commands'),
     'C16': dict(suites=[('set', [])], column='kv', relevant=lambda r: r['name'] in SET_CMDS, title='Set commands'),
     'C02': dict(suites=[('aof', [])], column='dur', clscol='dcls', relevant=lambda r: 'C02' in r['f'].get('own', ''), title='Append-only log durability'),
+    'C03': dict(suites=[('snap', [])], column='dur', clscol='dcls', relevant=lambda r: 'C03' in r['f'].get('own', ''), title='Snapshot round trip'),
+    'C10': dict(suites=[('snap', [])], column='dur', clscol='dcls', relevant=lambda r: 'C10' in r['f'].get('own', ''), title='Snapshots are crash-atomic'),
     'C09': dict(suites=[('aof', [])], column='dur', clscol='dcls', relevant=lambda r: 'C09' in r['f'].get('own', ''), title='Log rewrite transparent and crash-atomic'),
     'C19': dict(suites=ALL_DATA, column='mem', clscol='mcls', relevant=lambda r: True, title='Memory figure is a function of the dataset'),
     'C20': dict(suites=ALL_DATA, column='iso', relevant=lambda r: True, title='Logical databases are isolated'),
